@@ -18,7 +18,16 @@
 // listeners with hundreds of pipelined queries answered concurrently after
 // random delays with 13 B..60 KiB replies: the client-side deframer must see
 // only intact frames with the ID-derived content; (7) mosdns' DoQ client
-// connection against a harness QUIC peer.
+// connection against a harness QUIC peer; (8) message CONTENT classes (every
+// record kind mosdns relays, escapes, base64/hex/base32 fields of every padding
+// class, bitmaps, SVCB parameters, OPT options, unknown types; parsed from text
+// or relayed from the wire; compression on/off): several consecutive messages
+// per stream through PackTCPBuffer, WriteMsgToTCP and the reply path of the
+// three servers (content.go); (9) read errors striking in the MIDDLE of a frame
+// on the upstream connections while other queries stand at every point of
+// their exchange: every buffer handed out afterwards must be a frame the peer
+// sent and every frame the reader accepts must end where a peer frame ends
+// (midframe.go).
 package main
 
 import (
@@ -146,6 +155,21 @@ func replay() {
 		for i := 0; i < 5; i++ {
 			runServerBatch(c)
 		}
+	case "content":
+		var c contentCase
+		_ = json.Unmarshal(raw, &c)
+		if c.Path == "pure" || len(c.Path) < 8 {
+			runContentPure(c)
+		} else {
+			runContentServer(c, c.Path[7:], 2)
+		}
+	case "midframe":
+		var c mfCfg
+		_ = json.Unmarshal(raw, &c)
+		for i := 0; i < 3; i++ {
+			mfStop.Store(false)
+			runMidframe(c)
+		}
 	case "doq-client":
 		var c qcCfg
 		_ = json.Unmarshal(raw, &c)
@@ -166,10 +190,12 @@ func main() {
 	rep = evid.New("C16", "exploration")
 	caselog = evid.OpenCaseLog()
 	runtime.GOMAXPROCS(16)
-	rep.SetRule("cases: (a) per message length n (quick: 13..80, the power-of-two/MSS/limit neighbourhoods, 65533..65535 and seeded random lengths; thorough: every n in 13..65535) one write+read round trip per function (WriteRawMsgToTCP, WriteMsgToTCP, PackTCPBuffer, ReadRawMsgFromTCP, ReadMsgFromTCP) and per chunking class, content PRNG(seed,n); (b) over-long messages per writer; (c) malformed streams (every announced length 0..12, EOF/read error at each offset of multi-frame streams, generated garbage); (d) batches of concurrent writers/callers on one serialised stream; (e) pipelined queries against ServeTCP/TLS/DoQ on loopback. Non-trivial = a case whose outcome was checked against the independent framer: distinct fingerprints are function x length x chunking class, refusal function x length, malformed stream hash x reader x chunking x end error, batch configuration, and server protocol x reply size x framing mode x delay class of every reply verified intact")
+	rep.SetRule("cases: (a) per message length n (quick: 13..80, the power-of-two/MSS/limit neighbourhoods, 65533..65535 and seeded random lengths; thorough: every n in 13..65535) one write+read round trip per function (WriteRawMsgToTCP, WriteMsgToTCP, PackTCPBuffer, ReadRawMsgFromTCP, ReadMsgFromTCP) and per chunking class, content PRNG(seed,n); (b) over-long messages per writer; (c) malformed streams (every announced length 0..12, EOF/read error at each offset of multi-frame streams, generated garbage); (d) batches of concurrent writers/callers on one serialised stream; (e) pipelined queries against ServeTCP/TLS/DoQ on loopback; (f) per content class (17 classes of record kinds x parsed/relayed x compression on/off) streams of 3..8 consecutive generated messages through PackTCPBuffer / WriteMsgToTCP / ReadMsgFromTCP and as replies of the tcp, tls and doq servers; (g) per upstream transport x standing point of the other queries (queued, written-unarmed, written, none) x read error kind (expired deadline, injected timeout, temporary, i/o; alone or with the last bytes) x cut offset inside a realistic reply frame (quick: 16 offsets per combination incl. 0,1,2 and the last byte; thorough: every offset) one scenario. Non-trivial = a case whose outcome was checked against the independent framer: distinct fingerprints are function x length x chunking class, refusal function x length, malformed stream hash x reader x chunking x end error, batch configuration, server protocol x reply size x framing mode x delay class of every reply verified intact, content class x origin x compression x stream (all frames verified), and mid-frame scenario x outcome (error seen by the reader, connection closed or framing preserved)")
 	rep.Assume("lib/wire Frame/Deframer (20 lines, unit-tested) is the reference for RFC 1035 4.2.2 framing")
 	rep.Assume("a connection serialises concurrent Write calls and never splits or merges them with other calls' bytes (fakenet log order; kernel TCP / crypto/tls / quic-go stream semantics)")
 	rep.Assume("messages of 13, 14, 15, 16 and 18 bytes cannot be produced from a dns.Msg; those lengths are covered by the raw functions and by handler-framed server replies only")
+	rep.Assume("content classes: miekg/dns Msg.Pack() of the very message is the reference for the BODY of its frame; where frames begin and end, and that a frame is one whole message, is judged by lib/wire (Deframer, Parse)")
+	rep.Assume("mid-frame read errors: mosdns' schedule points tdc.readloop.read / reuse.readloop.read are reached exactly when the connection's reader has accepted a whole frame; the fakenet peer knows where the frames it sent end")
 	rep.Assume("an announced length of exactly 12 may be rejected or accepted (it is neither in 13..65535 nor less than a header)")
 
 	if rep.ReplayFile != "" {
@@ -210,6 +236,10 @@ func main() {
 	} else {
 		runRoundTrips(lengths, seed, allClasses)
 	}
+
+	// (a') message content classes: several consecutive messages per stream
+	phase("content_classes")
+	runContentPhase(seed)
 
 	// (b) over-long messages
 	phase("refusals")
@@ -259,6 +289,10 @@ func main() {
 			}
 		}
 	}
+
+	// (d'') read errors in the middle of a frame on the upstream connections
+	phase("midframe_read_errors")
+	runMidframePhase(seed)
 
 	// (e) servers on loopback
 	phase("servers")
@@ -316,6 +350,12 @@ func main() {
 	}
 	if rep.Get("transport_query_frames_verified") == 0 || rep.Get("transport_replies_verified") == 0 {
 		rep.Inconclusive("the transport workload verified nothing")
+	}
+	if !contentFailed.Load() && (rep.Get("content_messages_verified_pure") == 0 || rep.Get("content_messages_Len_estimate_not_packed_size") == 0 || rep.Get("content_messages_verified_server_tcp") == 0) {
+		rep.Inconclusive("the content-class workload verified nothing (pure=%d, size-estimate-differs=%d, server tcp=%d)", rep.Get("content_messages_verified_pure"), rep.Get("content_messages_Len_estimate_not_packed_size"), rep.Get("content_messages_verified_server_tcp"))
+	}
+	if !mfStop.Load() && (rep.Get("midframe_read_errors_struck") == 0 || rep.Get("midframe_buffers_verified_to_be_peer_frames") == 0) {
+		rep.Inconclusive("the mid-frame read error workload observed nothing (errors struck=%d, buffers verified=%d)", rep.Get("midframe_read_errors_struck"), rep.Get("midframe_buffers_verified_to_be_peer_frames"))
 	}
 	if rep.Get("malformed_rejected_length_le_12") == 0 || rep.Get("malformed_rejected_short_body") == 0 {
 		rep.Inconclusive("no malformed stream was rejected")
